@@ -3,6 +3,8 @@ NEXT Stutter
 CONSTANTS N = 4
  NNames = 1
  FullY = TRUE
+ Pep709 = FALSE
+ Skeleton = FALSE
  AllOptions = FALSE
 INVARIANT EmitProgram
 CHECK_DEADLOCK FALSE
